@@ -78,7 +78,12 @@ func (fe functionExpr) CompletionAtPos(ctx context.Context, pos hcl.Pos) []lang.
 			_, lengthLastRune := utf8.DecodeLastRune(recoveredSuffixBytes)
 			recoveredSuffixBytes = recoveredSuffixBytes[:len(recoveredSuffixBytes)-lengthLastRune]
 
-			recoveredIdentifier := append(recoveredPrefixBytes, recoveredSuffixBytes...)
+			// build the identifier in a fresh slice: the recovered bytes are
+			// sub-slices of the (shared) file buffer and appending to them
+			// would write into it
+			recoveredIdentifier := make([]byte, 0, len(recoveredPrefixBytes)+len(recoveredSuffixBytes))
+			recoveredIdentifier = append(recoveredIdentifier, recoveredPrefixBytes...)
+			recoveredIdentifier = append(recoveredIdentifier, recoveredSuffixBytes...)
 
 			// check if our recovered identifier contains "::"
 			// Why two colons? For no colons the parser would return a traversal expression
